@@ -17,7 +17,7 @@ rm "$pkgdir/zz_seed_demo_test.go"
 git apply "$S/patch.diff" || { echo "patch does not apply"; exit 1; }
 go build ./... || { echo "patched tree does not build"; exit 1; }
 go test -vet=off -count=1 ./... 2>&1 | grep -E "^(ok|FAIL|--- FAIL)" | grep -v "TestVCS/" | sed 's/\t[0-9.]*s$//; s/ ([0-9.]*s)//' | sort > /tmp/sv_patched.txt
-git stash -q; go test -vet=off -count=1 ./... 2>&1 | grep -E "^(ok|FAIL|--- FAIL)" | grep -v "TestVCS/" | sed 's/\t[0-9.]*s$//; s/ ([0-9.]*s)//' | sort > /tmp/sv_base.txt; git stash pop -q
+git apply -R "$S/patch.diff"; go test -vet=off -count=1 ./... 2>&1 | grep -E "^(ok|FAIL|--- FAIL)" | grep -v "TestVCS/" | sed 's/\t[0-9.]*s$//; s/ ([0-9.]*s)//' | sort > /tmp/sv_base.txt ; git apply "$S/patch.diff"
 if diff -q /tmp/sv_base.txt /tmp/sv_patched.txt >/dev/null; then echo "patched: existing suite unchanged"; else echo "patched: existing suite DIFFERS"; diff /tmp/sv_base.txt /tmp/sv_patched.txt; fi
 cp "$S/demo_test.go" "$pkgdir/zz_seed_demo_test.go"
 if go test -vet=off -count=1 ./$pkgdir 2>&1 | grep -E "^--- FAIL" | grep -vq "TestCertificateTransparency\|TestVCS"; then echo "patched: demo FAILS (good)"; else echo "patched: demo does not fail (bad seed)"; fi
